@@ -434,7 +434,7 @@ def gen_and_check(ctx, rng):
                 if glob["e"] / (len(norm) - norm.count("N")) >= 1:
                     ctx.count("skipped_rate_ge_1")
                     return
-            name = rng.choice([None, "nm1", "my_adapter"])
+            name = rng.choice([None, "nm1", "my_adapter", "lib{2}", "{i7}", "v{3}x"])      # braces in a name are part of the name
             spec = (f"{name}=" if name else "") + d["text"] + (";" + ";".join(d["ptxt"]) if d["ptxt"] else "")
             ctx.count("kind:single")
             ads = make_adapters_from_specifications([(typ, spec)], sp)
